@@ -3,6 +3,7 @@
     [to_xml_format]), a concrete base64, short constructor names for the generated case files,
     equality on documents, and the per-case comparison. *)
 Require Import Norad.Run.RunBase Norad.Model.Designspace.
+From Coq Require Import Uint63.
 Open Scope string_scope.
 
 (** ** L1 instances used for execution only (nothing is proved about them) *)
@@ -123,6 +124,22 @@ Definition spec_write : Doc -> node := spec_ds_write RL.
 (** a string with bytes the case-file writer prefers not to put into a literal *)
 Definition bs (l : list N) : string := string_of_bytes l.
 
+(** Strings in the generated case files travel packed, seven bytes per primitive integer
+    (big-endian, the last one padded with zero bytes), with their length: Coq reads integer
+    literals an order of magnitude faster than string literals. *)
+Definition ascii_of_int (i : int) : ascii :=
+  Ascii (negb (Uint63.eqb (i land 1) 0)) (negb (Uint63.eqb (i land 2) 0)) (negb (Uint63.eqb (i land 4) 0))
+        (negb (Uint63.eqb (i land 8) 0)) (negb (Uint63.eqb (i land 16) 0)) (negb (Uint63.eqb (i land 32) 0))
+        (negb (Uint63.eqb (i land 64) 0)) (negb (Uint63.eqb (i land 128) 0)).
+Fixpoint unpack (l : list int) : list ascii :=
+  match l with
+  | [] => []
+  | i :: r => ascii_of_int (i >> 48) :: ascii_of_int (i >> 40) :: ascii_of_int (i >> 32)
+              :: ascii_of_int (i >> 24) :: ascii_of_int (i >> 16) :: ascii_of_int (i >> 8)
+              :: ascii_of_int i :: unpack r
+  end.
+Definition u (len : nat) (l : list int) : string := string_of_list_ascii (firstn len (unpack l)).
+
 (** short constructors for the generated case files *)
 Definition S_ (s : string) : Pv := PStr RL s.
 Definition I_ (z : Z) : Pv := PInt RL z.
@@ -145,6 +162,61 @@ Definition So := Build_source RL.
 Definition In := Build_instance RL.
 Definition Ds : string -> list (axis RL) -> rules RL -> list (source RL) -> list (instance RL) ->
                 list (string * Pv) -> Doc := Build_doc RL.
+
+(** the vocabulary as constants (an identifier is read faster than a literal) *)
+Definition q_designspace : string := "designspace".
+Definition q_axes : string := "axes".
+Definition q_axis : string := "axis".
+Definition q_map : string := "map".
+Definition q_rules : string := "rules".
+Definition q_rule : string := "rule".
+Definition q_conditionset : string := "conditionset".
+Definition q_condition : string := "condition".
+Definition q_sub : string := "sub".
+Definition q_sources : string := "sources".
+Definition q_source : string := "source".
+Definition q_location : string := "location".
+Definition q_dimension : string := "dimension".
+Definition q_instances : string := "instances".
+Definition q_instance : string := "instance".
+Definition q_lib : string := "lib".
+Definition q_dict : string := "dict".
+Definition q_key : string := "key".
+Definition q_string : string := "string".
+Definition q_integer : string := "integer".
+Definition q_real : string := "real".
+Definition q_data : string := "data".
+Definition q_date : string := "date".
+Definition q_array : string := "array".
+Definition q_true : string := "true".
+Definition q_false : string := "false".
+Definition q_name : string := "name".
+Definition q_tag : string := "tag".
+Definition q_default : string := "default".
+Definition q_hidden : string := "hidden".
+Definition q_minimum : string := "minimum".
+Definition q_maximum : string := "maximum".
+Definition q_values : string := "values".
+Definition q_input : string := "input".
+Definition q_output : string := "output".
+Definition q_processing : string := "processing".
+Definition q_with : string := "with".
+Definition q_uservalue : string := "uservalue".
+Definition q_xvalue : string := "xvalue".
+Definition q_yvalue : string := "yvalue".
+Definition q_familyname : string := "familyname".
+Definition q_stylename : string := "stylename".
+Definition q_filename : string := "filename".
+Definition q_layer : string := "layer".
+Definition q_postscriptfontname : string := "postscriptfontname".
+Definition q_stylemapfamilyname : string := "stylemapfamilyname".
+Definition q_stylemapstylename : string := "stylemapstylename".
+Definition q_format : string := "format".
+Definition q_unknown : string := "unknown".
+Definition q_copy : string := "copy".
+Definition q_zz : string := "zz".
+Definition q_first : string := "first".
+Definition q_last : string := "last".
 
 (** ** Equality on instantiated documents *)
 Definition opt_eqb {A} (e : A -> A -> bool) (a b : option A) : bool :=
@@ -230,24 +302,30 @@ Definition doc_eqb (a b : Doc) : bool :=
 (** ** Hashes.  The case files carry documents and trees once; what the implementation produced
     (the tree the independent reader found in the file, the document [load] returned) arrives as a
     64-bit hash of a canonical traversal, computed the same way by the driver. *)
-Definition hmask : N := 18446744073709551615.
-Definition hprime : N := 1099511628211.
-Definition hinit : N := 14695981039346656037.
-Definition mix (h n : N) : N := N.land (N.lxor h n * hprime) hmask.
-Fixpoint hash_bytes (h : N) (s : string) : N :=
+Definition hprime : int := 1099511628211%uint63.
+Definition hinit : int := 5472609002491880229%uint63.      (* the FNV offset basis mod 2^63 *)
+(** arithmetic of primitive integers is modulo 2^63 *)
+Definition mix (h n : int) : int := ((h lxor n) * hprime)%uint63.
+Definition bit (b : bool) (v : int) : int := if b then v else 0%uint63.
+Definition int_of_ascii (c : ascii) : int :=
+  match c with
+  | Ascii b0 b1 b2 b3 b4 b5 b6 b7 =>
+      (bit b0 1 + bit b1 2 + bit b2 4 + bit b3 8 + bit b4 16 + bit b5 32 + bit b6 64 + bit b7 128)%uint63
+  end.
+Fixpoint hash_bytes (h : int) (s : string) : int :=
   match s with
   | EmptyString => h
-  | String c r => hash_bytes (mix h (N_of_ascii c)) r
+  | String c r => hash_bytes (mix h (int_of_ascii c)) r
   end.
-Definition hash_str (h : N) (s : string) : N := mix (hash_bytes (mix h 1000) s) 1001.
-Fixpoint hash_node (h : N) (n : node) : N :=
+Definition hash_str (h : int) (s : string) : int := mix (hash_bytes (mix h 1000%uint63) s) 1001%uint63.
+Fixpoint hash_node (h : int) (n : node) : int :=
   match n with
-  | Text s => hash_str (mix h 2000) s
+  | Text s => hash_str (mix h 2000%uint63) s
   | Elem name attrs kids =>
-      let h1 := hash_str (mix h 2001) name in
-      let h2 := fold_left (fun a kv => hash_str (hash_str (mix a 2002) (fst kv)) (snd kv)) attrs h1 in
-      mix ((fix go (h : N) (l : list node) : N :=
-              match l with [] => h | k :: r => go (hash_node h k) r end) (mix h2 2003) kids) 2004
+      let h1 := hash_str (mix h 2001%uint63) name in
+      let h2 := fold_left (fun a kv => hash_str (hash_str (mix a 2002%uint63) (fst kv)) (snd kv)) attrs h1 in
+      mix ((fix go (h : int) (l : list node) : int :=
+              match l with [] => h | k :: r => go (hash_node h k) r end) (mix h2 2003%uint63) kids) 2004%uint63
   end.
 
 (** a faithful dump of a document as a tree (every field explicit), so that the same hash serves *)
@@ -311,14 +389,14 @@ Definition dump_doc (d : Doc) : node :=
            dump_dims (i_location _ s); dump_pv (M_ (i_lib _ s))])
         (ds_instances _ d));
       dump_pv (M_ (ds_lib _ d)) ].
-Definition hash_doc (d : Doc) : N := hash_node hinit (dump_doc d).
+Definition hash_doc (d : Doc) : int := hash_node hinit (dump_doc d).
 
 (** ** Cases *)
 (** what [DesignSpaceDocument::load] did with the saved file: the same document, another one
     (hash of its dump), an error *)
-Inductive loaded := LSame | LOther (h : N) | LErr.
+Inductive loaded := LSame | LOther (h : int) | LErr.
 (** what the independent reader found in the saved file: not XML, or a tree (its hash) *)
-Inductive readback := FBad | FTree (h : N).
+Inductive readback := FBad | FTree (h : int).
 Record case := {
   k_doc : Doc; k_file : readback; k_load : loaded;
   k_wf : bool; k_trim : bool; k_unclean : bool }.
@@ -327,14 +405,14 @@ Definition K := Build_case.
 Definition onode_eqb (a : option node) (b : readback) : bool :=
   match a, b with
   | None, FBad => true
-  | Some x, FTree h => N.eqb (hash_node hinit x) h
+  | Some x, FTree h => Uint63.eqb (hash_node hinit x) h
   | _, _ => false
   end.
 Definition load_agrees (d : Doc) (m : option Doc) (l : loaded) : bool :=
   match m, l with
   | None, LErr => true
   | Some x, LSame => doc_eqb x d
-  | Some x, LOther h => N.eqb (hash_doc x) h && negb (doc_eqb x d)
+  | Some x, LOther h => Uint63.eqb (hash_doc x) h && negb (doc_eqb x d)
   | _, _ => false
   end.
 (** bit 1: the written file (as a conforming reader sees it) differs from the model's tree;
@@ -359,11 +437,11 @@ Definition run_cases (cs : list case) : list (N * N) := run_aux 0%N cs.
 
 (** decoder side: a tree (perturbed by the driver, written to a file, loaded by norad) and
     what the load returned (error, or the hash of the document's dump) *)
-Inductive outcome := OErr | ODoc (h : N).
+Inductive outcome := OErr | ODoc (h : int).
 Definition dec_agrees (t : node) (o : outcome) : bool :=
   match dec t, o with
   | None, OErr => true
-  | Some x, ODoc h => N.eqb (hash_doc x) h
+  | Some x, ODoc h => Uint63.eqb (hash_doc x) h
   | _, _ => false
   end.
 Fixpoint run_dec_aux (i : N) (cs : list (node * outcome)) : list N :=
